@@ -524,6 +524,13 @@ func (fb *formulaBuilder) reach(b *ssa.BasicBlock) BExpr {
 	if fb.root != nil && !fb.root.Dominates(b) {
 		return bConst(false) // a predecessor outside the region below root: not on a path from root
 	}
+	// control always arrives at b once it is at b's immediate dominator (only loops, assumed to
+	// terminate, and branches that join again lie in between): same path condition
+	if d := b.Idom(); d != nil && (fb.root == nil || fb.root.Dominates(d)) && postDominates(b, d) {
+		e := fb.reach(d)
+		fb.memoB[b] = e
+		return e
+	}
 	if fb.onPath[b] {
 		fb.undec = append(fb.undec, fmt.Sprintf("loop through block %d of %s", b.Index, fname(b.Parent())))
 		return bConst(false)
@@ -628,4 +635,35 @@ func (fb *formulaBuilder) nilOfPhi(phi *ssa.Phi) BExpr {
 		alts = append(alts, bAnd{[]BExpr{ec, isNil}})
 	}
 	return bOr{alts}
+}
+
+var postDomMemo = map[[2]*ssa.BasicBlock]bool{}
+
+// postDominates: every path from d that leaves the function (return or panic) passes b first.
+// Cycles that never leave are not counted: loops are assumed to terminate.
+func postDominates(b, d *ssa.BasicBlock) bool {
+	if b == d {
+		return true
+	}
+	key := [2]*ssa.BasicBlock{b, d}
+	if v, ok := postDomMemo[key]; ok {
+		return v
+	}
+	seen := map[*ssa.BasicBlock]bool{b: true}
+	work := []*ssa.BasicBlock{d}
+	res := true
+	for len(work) > 0 && res {
+		x := work[len(work)-1]
+		work = work[:len(work)-1]
+		if seen[x] {
+			continue
+		}
+		seen[x] = true
+		if len(x.Succs) == 0 {
+			res = false // an exit reached without passing b
+		}
+		work = append(work, x.Succs...)
+	}
+	postDomMemo[key] = res
+	return res
 }
